@@ -150,7 +150,7 @@ PROPS = {
     },
     'C12': {
         'level': 'proof',
-        'verus': [_cg('c12_parse', True), _cg('cmd_lua'), _cg('exec_route'), _cg('exec_strings'), _cg('exec_lists'), _cg('exec_sets'), _cg('exec_keys'), _cg('exec_zsets'), {'group': 'srv_zsets', 'units': ['handle_zadd', 'handle_zrem', 'handle_zscore', 'handle_zcard'], 'exclude_units': CMD_SHARED}, {'group': 'shard_zsets', 'units': ['zadd', 'zrem']}, _cg('srv_strings'), _cg('cmd_strings'), _cg('cmd_lists'), _cg('cmd_sets'), _cg('cmd_hashes'),
+        'verus': [_cg('c12_parse', True), _cg('cmd_lua'), _cg('exec_route'), _cg('exec_strings'), _cg('exec_lists'), _cg('exec_sets'), _cg('exec_keys'), _cg('exec_zsets'), {'group': 'srv_zsets', 'units': ['handle_zadd', 'handle_zrem', 'handle_zscore', 'handle_zcard', 'handle_zpopmin', 'handle_zpopmax'], 'exclude_units': CMD_SHARED}, {'group': 'shard_zsets', 'units': ['zadd', 'zrem']}, _cg('srv_strings'), _cg('cmd_strings'), _cg('cmd_lists'), _cg('cmd_sets'), _cg('cmd_hashes'),
                   # the engine functions both paths call (the EngineModel contracts the arms and handlers assume are what these units prove)
                   {'group': 'shard_core'}, _sg('shard_strings'), _sg('shard_lists'), _sg('shard_sets'), _sg('shard_hashes')],
         'tables': [{'name': 'script_parse_table', 'kind': 'script_parse'}],
